@@ -107,6 +107,14 @@ def generate(tier, rng):
            'K': 1 + i % 3, 'pop': _pop(rng, 2, 4), 'nojit': i % 3 == 2, 'np': i % 2 == 1, 'seed': rng.randrange(1000)}
   if tier != 'search':
     yield from _flag_cases(tier, rng)
+    # the same histories in another interpreter process (other PYTHONHASHSEED): the observations must be identical
+    subs, seen = [], set()
+    for case in _generate_base('quick', rng):
+      k = (case['kind'], len(seen) % 2)
+      if case['kind'] in ('agnostic', 'apfl', 'hyp_cluster', 'mime_lite') and case['kind'] not in {a for a, _ in seen}:
+        seen.add(k)
+        subs.append(dict(case, ids=['bytes', 'str'][len(subs) % 2], ctuple=False))
+    yield {'kind': 'xproc', 'cases': subs, 'hashseeds': [1] if tier == 'quick' else [1, rng.randrange(2, 2 ** 31)]}
 
 
 def _flag_cases(tier, rng):
@@ -215,7 +223,22 @@ def _finite(tree):
 
 # ---- running ------------------------------------------------------------------------
 
+def observations(payload):
+  """run() of every sub-case, as canonical JSON strings (called in this and in other interpreter processes)"""
+  import json
+  return [json.dumps(run(c), sort_keys=True) for c in payload['cases']]
+
+
 def run(case):
+  if case['kind'] == 'xproc':
+    from lib import c10c17_xproc as xp
+    here = observations({'cases': case['cases']})
+    obs = {'err': None, 'children': []}
+    for hs in case['hashseeds']:
+      r = xp.call('c17', 'observations', {'cases': case['cases']}, hs)
+      obs['children'].append({'hashseed': hs, 'err': r['err'],
+                              'differs': None if r['err'] else [i for i, (a, b) in enumerate(zip(here, r['result'])) if a != b]})
+    return obs
   if case['kind'] == 'flags':
     from lib import c10c17_flags as flagrun
     return flagrun.run('c17', case['flag'], case['value'], case['names'], case['seed'])
@@ -567,6 +590,15 @@ def _run_ignore(case):
 
 def oracle(case, obs):
   k = case['kind']
+  if k == 'xproc':
+    out = []
+    for ch in obs['children']:
+      if ch['err']:
+        out.append(('xproc.harness-failed', f'child process (PYTHONHASHSEED={ch["hashseed"]}): {ch["err"]}'))
+      for i in ch['differs'] or []:
+        out.append((case['cases'][i]['kind'] + '.process-dependent',
+                    f'{case["cases"][i]["kind"]}: another interpreter process (PYTHONHASHSEED={ch["hashseed"]}) observes a different history'))
+    return out
   if k == 'flags':
     if obs['err']:
       return [('flags.harness-failed', f'{case["flag"]}={case["value"]}: {obs["err"]}')]
@@ -744,7 +776,7 @@ def _zl(xs):
 
 
 def encode(case, obs):
-  if case['kind'] == 'flags':
+  if case['kind'] in ('flags', 'xproc'):
     return None
   if obs['err']:
     return None
@@ -827,6 +859,8 @@ def encode(case, obs):
 
 
 def nontrivial(case, obs):
+  if case['kind'] == 'xproc':
+    return bool(obs['children'])
   if case['kind'] == 'flags':
     return bool(obs['results'])
   if obs['err']:
@@ -847,7 +881,7 @@ def nontrivial(case, obs):
 
 def describe(case, obs):
   d = {'kind': case['kind']}
-  if case['kind'] == 'flags':
+  if case['kind'] in ('flags', 'xproc'):
     return d
   if obs['err']:
     return d
